@@ -23,7 +23,7 @@ RULE = ('G-doc documents with hostile titles/metadata, headings of all styles, {
         'lists them and every Pictures/ member; TextBundle: info.json is JSON and the text member exists; ITMZ: mapdata.xml. Main document: EPUB '
         'main.xhtml == complete HTML (in-document TOC removed, k-th asset reference aligned); ODT office:text == FODT office:text modulo picture '
         'paths; TextBundle text == source modulo asset substitution; ITMZ mapdata == FORMAT_ITMZ body under the UUID mask. Asset table: URL<->archive '
-        'path is a bijection and every referenced asset whose file exists is a member with identical bytes. Non-trivial: source with >=1 heading '
+        'path is a bijection and every referenced asset whose file exists is a member with identical bytes. Every case starts with a conversion that draws from the e-mail obfuscation sequence (so a package writer that forgets to restart it fails deterministically); the CLI leg also packs a {{part.*}} wildcard transclusion and looks for the html / fodt flavour in the main document. Non-trivial: source with >=1 heading '
         'and >=1 image/css whose file exists; distinct by (source, format, directory).')
 ASSUMPTIONS = ['an image whose file does not exist (or is remote; the build has no libcurl) gets an asset path but no member; that is accepted',
                'TextBundle substitutes only image destinations it can match textually (titled inline images keep their URL); not asserted either way',
